@@ -68,13 +68,12 @@ Proof.
     pose proof (digits_f_len 20 u []). rewrite len_nil in *. lia.
 Qed.
 
-Lemma num_text_piece u p : 0 <= u < two64 -> (p = false -> 0 < u) -> num_text u p = Some (num_piece u p).
+Lemma num_text_piece u p : 0 <= u < two64 -> num_text u p = Some (num_piece u p).
 Proof.
-  intros Hu Hp. unfold num_text, num_piece. destruct p.
+  intros Hu. unfold num_text, num_piece. destruct p.
   - destruct (num_loop_print u Hu) as [E L]. rewrite E. unfold NumTemp.
     destruct (Z.leb_spec (len (print_nat u)) 22); [reflexivity | lia].
-  - specialize (Hp eq_refl).
-    assert (Hm : (two64 - u) mod two64 = two64 - u) by (apply Z.mod_small; lia).
-    rewrite Hm. destruct (num_loop_print (two64 - u) ltac:(lia)) as [E L]. rewrite E. unfold NumTemp.
-    rewrite len_cons. destruct (Z.leb_spec (1 + len (print_nat (two64 - u))) 22); [reflexivity | lia].
+  - assert (Hm : 0 <= (two64 - u) mod two64 < two64) by (apply Z.mod_pos_bound; reflexivity).
+    destruct (num_loop_print _ Hm) as [E L]. rewrite E. unfold NumTemp.
+    rewrite len_cons. destruct (Z.leb_spec (1 + len (print_nat ((two64 - u) mod two64))) 22); [reflexivity | lia].
 Qed.
